@@ -114,6 +114,19 @@ def gen_case(rng, *, full_model=True, penalties=True, weights=True, two_groups=T
         case["relations"].append({"source": s, "target": t, "param": rng.choice([1, 2]), "ivs": ivs, "single": len(ivs) == 1 and rng.random() < 0.5})
         rel_targets.add(t)
         rel_sources.add(s)
+    if not has_global and len(all_labels) >= 2 and not case["relations"] and rng.random() < 0.12:
+        # piecewise relation: the same target is related (to the same or to another source, with another parameter) on two DISJOINT
+        # parts of the axis; every index must use the relation whose interval it lies in
+        t = rng.choice(all_labels)
+        others = [l for l in all_labels if l != t]
+        s1, s2 = rng.choice(others), rng.choice(others)
+        a = rng.choice([0, 1, 2])
+        b = a + rng.choice([1, 2])
+        p1 = rng.choice([1, 2])
+        case["relations"].append({"source": s1, "target": t, "param": p1, "ivs": [["-inf", a]], "single": rng.random() < 0.5})
+        case["relations"].append({"source": s2, "target": t, "param": 3 - p1 if s1 == s2 else rng.choice([1, 2]), "ivs": [[b, "inf"]], "single": rng.random() < 0.5})
+        rel_targets.add(t)
+        rel_sources |= {s1, s2}
     if not has_global and rng.random() < 0.35:
         cands = [l for l in all_labels if l not in rel_targets]      # D7
         if rel_sources and rng.random() < 0.5:
